@@ -42,19 +42,25 @@ const WORDS: [&str; 12] = ["ab", "ba", "abc", "cab", "bca", "aa", "bb", "c", "ac
 const POINTS: [&str; 12] = ["hb.stopped", "hb.done", "hb.harvest", "hb.consumed", "hb.end", "rm.done", "rm.append", "rm.spawn", "m.load", "m.take", "m.publish", "m.notify"];
 
 fn gen(r: &mut Rng, focus: &str) -> Sess {
-    let n_items = match r.below(6) { 0 => 0, 1 => 1, 2 => 2, _ => r.below(40) as usize };
-    let items: Vec<String> = (0..n_items).map(|i| format!("{}{}", r.pick(&WORDS), i)).collect();
-    let mut timeline = Vec::new();
     let c14 = focus == "C14";
-    // feeding: chunks with pauses
-    let mut fed = 0;
+    let n_runs = if focus == "C01" { match r.below(20) { 0..=13 => 1, 14..=18 => 2, _ => 3 } } else { 1 };
+    let mut items: Vec<String> = Vec::new();
     let mut feed_acts = Vec::new();
-    while fed < n_items {
-        let k = 1 + r.below(((n_items - fed) as u64).min(12)) as usize;
-        feed_acts.push(Act::Feed(k));
-        fed += k;
+    for k in 0..n_runs {
+        let n_items = match r.below(6) { 0 => 0, 1 => 1, 2 => 2, _ => r.below(40) as usize };
+        if k > 0 { feed_acts.push(Act::Cmd); }
+        let base = items.len();
+        for i in 0..n_items { items.push(format!("{}{}", r.pick(&WORDS), base + i)); }
+        let mut fed = 0;
+        while fed < n_items {
+            let c = 1 + r.below(((n_items - fed) as u64).min(12)) as usize;
+            feed_acts.push(Act::Feed(c));
+            fed += c;
+        }
+        // the last run always ends; an earlier one may be cut short by the re-run
+        if k + 1 == n_runs || r.chance(2, 3) { feed_acts.push(Act::Eof); }
     }
-    feed_acts.push(Act::Eof);
+    let n_items = items.len();
     let n_edits = if c14 { 0 } else { r.below(5) as usize };
     let mut edit_acts = Vec::new();
     for _ in 0..n_edits {
@@ -65,7 +71,7 @@ fn gen(r: &mut Rng, focus: &str) -> Sess {
             _ => Act::Hb,
         });
     }
-    // interleave
+    let mut timeline = Vec::new();
     let (mut i, mut j) = (0, 0);
     while i < feed_acts.len() || j < edit_acts.len() {
         let take_feed = j >= edit_acts.len() || (i < feed_acts.len() && r.chance(1, 2));
@@ -86,7 +92,7 @@ fn gen(r: &mut Rng, focus: &str) -> Sess {
     };
     let mut delays = Vec::new();
     for _ in 0..r.below(3) {
-        delays.push((*r.pick(&POINTS), 1 + r.below(3) as usize, *r.pick(&[5u64, 30, 120, 250])));
+        delays.push((*r.pick(&POINTS), 1 + r.below(4) as usize, *r.pick(&[5u64, 30, 120, 250])));
     }
     Sess {
         items,
@@ -96,8 +102,8 @@ fn gen(r: &mut Rng, focus: &str) -> Sess {
         select1: c14 && r.chance(2, 3),
         exit0: c14 && r.chance(2, 3),
         sync: c14 && r.chance(1, 4),
-        header_lines: if r.chance(1, 4) { 1 + r.below(3) as usize } else { 0 },
-        no_clear_if_empty: r.chance(1, 6),
+        header_lines: if r.chance(1, 4) || focus == "C15" && r.chance(1, 2) { 1 + r.below(3) as usize } else { 0 },
+        no_clear_if_empty: r.chance(1, 8),
         delays,
     }
 }
@@ -362,16 +368,496 @@ fn run(s: &Sess) -> Outcome {
     Outcome { auto, is_abort, output, trace, stalled, final_query: query, regex, run_start, fed: next }
 }
 
+
+// ------------------------------------------------------------------------------------------
+// linearisation of a recorded session into labels of Model/Pipeline.v
+
+struct Lin {
+    steps: Vec<(String, Vec<u64>)>,
+}
+impl Lin {
+    fn emit(&mut self, label: &str, obs: Vec<u64>) {
+        self.steps.push((label.to_string(), obs));
+    }
+}
+
+struct Thr {
+    evs: Vec<(&'static str, usize, usize)>,
+    pos: usize,
+}
+
+fn matches_ref(s: &Sess, item: &str, q: &str, regex: bool) -> bool {
+    if regex || s.exact { item.contains(q) } else { subseq(q, item) }
+}
+
+/// (coq term of the case, description) or None if the trace has no main thread
+fn session_case(s: &Sess, o: &Outcome) -> Option<String> {
+    let tr = &o.trace;
+    let main_tag = tr.iter().find(|e| e.1 == "ev")?.0;
+    // threads in order of first appearance
+    let mut readers: Vec<Thr> = Vec::new();
+    let mut reader_tags: Vec<u64> = Vec::new();
+    let mut matchers: Vec<Thr> = Vec::new();
+    let mut matcher_tags: Vec<u64> = Vec::new();
+    let mut main: Vec<(&'static str, usize, usize)> = Vec::new();
+    for e in tr {
+        if e.0 == main_tag {
+            main.push((e.1, e.2, e.3));
+        } else if e.1.starts_with("r.") {
+            if e.1 == "r.start" {
+                reader_tags.push(e.0);
+                readers.push(Thr { evs: vec![], pos: 0 });
+            } else if let Some(k) = reader_tags.iter().rposition(|t| *t == e.0) {
+                readers[k].evs.push((e.1, e.2, e.3));
+            }
+        } else if e.1.starts_with("m.") {
+            let k = match matcher_tags.iter().position(|t| *t == e.0) {
+                Some(k) => k,
+                None => {
+                    matcher_tags.push(e.0);
+                    matchers.push(Thr { evs: vec![], pos: 0 });
+                    matchers.len() - 1
+                }
+            };
+            matchers[k].evs.push((e.1, e.2, e.3));
+        }
+    }
+    // queries: id 0 = initial; one more per effective edit
+    let mut queries: Vec<(String, bool)> = vec![(s.init_query.clone(), false)];
+    {
+        let (mut q, mut rx) = (s.init_query.clone(), false);
+        for (_, a) in &s.timeline {
+            match a {
+                Act::Add(c) => { q.push(*c); queries.push((q.clone(), rx)); }
+                Act::Back => { if !q.is_empty() { q.pop(); queries.push((q.clone(), rx)); } }
+                Act::Rotate => { rx = !rx; queries.push((q.clone(), rx)); }
+                _ => {}
+            }
+        }
+    }
+    // command runs: item ids per run
+    let mut run_bounds: Vec<usize> = vec![0];
+    {
+        let mut next = 0;
+        for (_, a) in &s.timeline {
+            match a {
+                Act::Feed(k) => next = (next + k).min(s.items.len()),
+                Act::Cmd => run_bounds.push(next),
+                _ => {}
+            }
+        }
+        run_bounds.push(next);
+    }
+    let run_ids = |k: usize| -> Vec<u64> {
+        if k + 1 < run_bounds.len() { (run_bounds[k] as u64..run_bounds[k + 1] as u64).collect() } else { vec![] }
+    };
+
+    let mut lin = Lin { steps: Vec::new() };
+    let mut cur_reader: usize = 0;
+    let mut cur_matcher: Option<usize> = None;
+    let mut next_matcher = 0usize;
+    let mut untaken = 0usize;
+    let mut qid = 0usize;
+    let mut run_no = 0usize;
+    let mut dec: u64 = 0;
+
+    fn adv_matcher(lin: &mut Lin, m: &mut Thr, upto: &str, killed: bool) {
+        // emit the thread's labels up to and including `upto`
+        if !m.evs[m.pos.min(m.evs.len())..].iter().any(|e| e.0 == upto) {
+            return;
+        }
+        while m.pos < m.evs.len() {
+            let e = m.evs[m.pos];
+            m.pos += 1;
+            match e.0 {
+                "m.load" => lin.emit("LMLoad", vec![e.1 as u64]),
+                "m.take" => lin.emit("LMTake", vec![e.1 as u64, e.2 as u64]),
+                "m.publish" => lin.emit("LMPublish", if killed { vec![] } else { vec![e.1 as u64] }),
+                "m.notify" => lin.emit("LMNotify", vec![]),
+                "m.stop" => {
+                    lin.emit("LMFlag", vec![]);
+                    lin.emit("LMExit", vec![]);
+                }
+                _ => {}
+            }
+            if e.0 == upto {
+                break;
+            }
+        }
+    }
+    fn adv_pushes(lin: &mut Lin, r: &mut Thr, untaken: &mut usize, want: usize) {
+        while *untaken < want && r.pos < r.evs.len() {
+            let e = r.evs[r.pos];
+            if e.0 != "r.push" {
+                break;
+            }
+            r.pos += 1;
+            lin.emit("LPush", vec![]);
+            *untaken += 1;
+        }
+    }
+    fn adv_eof(lin: &mut Lin, r: &mut Thr, untaken: &mut usize) {
+        while r.pos < r.evs.len() {
+            let e = r.evs[r.pos];
+            r.pos += 1;
+            if e.0 == "r.push" {
+                lin.emit("LPush", vec![]);
+                *untaken += 1;
+            } else if e.0 == "r.eof" {
+                lin.emit("LEof", vec![]);
+            }
+        }
+    }
+
+    let mut i = 0;
+    let mut pending_nonhb = false;
+    while i < main.len() {
+        let (name, a, b) = main[i];
+        i += 1;
+        match name {
+            "ev" => {
+                if a == 1 {
+                    lin.emit("LHb", vec![]);
+                    pending_nonhb = false;
+                } else {
+                    pending_nonhb = true;
+                }
+            }
+            "hb.stopped" => {
+                if a == 1 {
+                    if let Some(j) = cur_matcher { adv_matcher(&mut lin, &mut matchers[j], "m.stop", false); }
+                }
+                lin.emit("LMain", vec![a as u64, b as u64]);
+            }
+            "hb.done" => {
+                if a == 1 && cur_reader < readers.len() { adv_eof(&mut lin, &mut readers[cur_reader], &mut untaken); }
+                lin.emit("LMain", vec![a as u64]);
+            }
+            "hb.harvest" => {
+                lin.emit("LMain", vec![a as u64, b as u64]);
+                cur_matcher = None;
+            }
+            "hb.consumed" => {
+                if a == 1 {
+                    if let Some(j) = cur_matcher { if matchers.len() > j { adv_matcher(&mut lin, &mut matchers[j], "m.take", false); } }
+                }
+                lin.emit("LMain", vec![a as u64]);
+            }
+            "rm.done" => {
+                if a == 1 {
+                    if cur_reader < readers.len() { adv_eof(&mut lin, &mut readers[cur_reader], &mut untaken); }
+                    lin.emit("LMain", vec![1]);
+                }
+            }
+            "rm.append" => {
+                if cur_reader < readers.len() { adv_pushes(&mut lin, &mut readers[cur_reader], &mut untaken, a); }
+                lin.emit("LMain", vec![0, a as u64, b as u64]);
+                untaken = 0;
+            }
+            "rm.spawn" => {
+                cur_matcher = Some(next_matcher);
+                next_matcher += 1;
+            }
+            "hb.end" => {
+                if i < main.len() && main[i].0 == "s1.read" {
+                    let (bits, nm) = (main[i].1, main[i].2);
+                    i += 1;
+                    let c = (bits >> 1) & 1;
+                    let r = (bits >> 2) & 1;
+                    let ms = bits & 1;
+                    if c == 1 { if let Some(j) = cur_matcher { if matchers.len() > j { adv_matcher(&mut lin, &mut matchers[j], "m.take", false); } } }
+                    lin.emit("LMain", vec![c as u64]);
+                    if r == 1 && cur_reader < readers.len() { adv_eof(&mut lin, &mut readers[cur_reader], &mut untaken); }
+                    lin.emit("LMain", vec![r as u64]);
+                    lin.emit("LMain", vec![ms as u64, nm as u64]);
+                } else {
+                    lin.emit("LMain", vec![]);
+                    lin.emit("LMain", vec![]);
+                    lin.emit("LMain", vec![]);
+                }
+            }
+            "s1.decide" => {
+                dec = if b == 1 && s.select1 { 1 } else if b == 0 && s.exit0 { 2 } else { 3 };
+            }
+            "q.change" if pending_nonhb => {
+                qid += 1;
+                lin.emit(&format!("(LQuery {})", coq::n(qid as u64)), vec![]);
+                lin.emit("LMain", vec![]);
+                if let Some(j) = cur_matcher.take() { if matchers.len() > j { adv_matcher(&mut lin, &mut matchers[j], "m.stop", true); } }
+                lin.emit("LMain", vec![]);
+                pending_nonhb = false;
+            }
+            "cmd.change" if pending_nonhb => {
+                run_no += 1;
+                lin.emit(&format!("(LCmd {})", coq::ns(run_ids(run_no))), vec![]);
+                lin.emit("LMain", vec![]);
+                if let Some(j) = cur_matcher.take() { if matchers.len() > j { adv_matcher(&mut lin, &mut matchers[j], "m.stop", true); } }
+                lin.emit("LMain", vec![]);
+                cur_reader = run_no;
+                untaken = 0;
+                pending_nonhb = false;
+            }
+            _ => {}
+        }
+    }
+    // table: row per query id over all item ids
+    let table = coq::list(queries.iter().map(|(q, rx)| coq::list(s.items.iter().map(|it| coq::b(matches_ref(s, it, q, *rx))))));
+    // run-length encoding: blocks start at a dispatch label; equal consecutive blocks are merged
+    let mut blocks: Vec<Vec<(String, Vec<u64>)>> = Vec::new();
+    for st in &lin.steps {
+        if blocks.is_empty() || st.0 == "LHb" || st.0.starts_with("(L") { blocks.push(Vec::new()); }
+        blocks.last_mut().unwrap().push(st.clone());
+    }
+    let mut segs: Vec<(u64, Vec<(String, Vec<u64>)>)> = Vec::new();
+    let mut bi = 0;
+    while bi < blocks.len() {
+        // best repetition of a group of 1..4 blocks starting here
+        let (mut best_p, mut best_k) = (1usize, 1usize);
+        for p in 1..=4usize {
+            if bi + p > blocks.len() { break; }
+            let mut k = 1;
+            while bi + (k + 1) * p <= blocks.len() && (0..p).all(|t| blocks[bi + t] == blocks[bi + k * p + t]) { k += 1; }
+            if k >= 2 && p * k > best_p * best_k { best_p = p; best_k = k; }
+        }
+        let group: Vec<(String, Vec<u64>)> = blocks[bi..bi + best_p].iter().flatten().cloned().collect();
+        segs.push((best_k as u64, group));
+        bi += best_p * best_k;
+    }
+    let steps = coq::list(segs.iter().map(|(n, b)| coq::pair(coq::n(*n), coq::list(b.iter().map(|(l, o)| coq::pair(l.clone(), coq::ns(o.iter().cloned())))))));
+    let final_ids: Option<Vec<u64>> = if o.auto || o.stalled { None } else {
+        let mut ids = Vec::new();
+        for t in &o.output {
+            match s.items.iter().position(|x| x == t) { Some(k) => ids.push(k as u64), None => ids.push(9_999_999) }
+        }
+        Some(ids)
+    };
+    Some(format!("(KSession {} {} {} {} {} {} {} {} {} {} {})",
+        s.header_lines, coq::b(s.no_clear_if_empty), table, coq::ns(run_ids(0)), coq::n(0),
+        coq::b(s.select1), coq::b(s.exit0), coq::b(s.sync), steps, coq::opt(final_ids.map(|v| coq::ns(v))), coq::n(dec)))
+}
+
+// ------------------------------------------------------------------------------------------
+// ItemPool component cases
+fn pool_case(r: &mut Rng) -> (String, Option<String>, String) {
+    let nres = if r.chance(1, 2) { 0 } else { r.below(5) as usize };
+    let pool = V::ItemPool::new().lines_to_reserve(nres);
+    let mut next = 0u64;
+    let mut ops = Vec::new();
+    let mut seen = Vec::new();
+    let mut bad: Option<String> = None;
+    // reference: everything appended since the last clear, in order
+    let mut all: Vec<u64> = Vec::new();
+    let mut taken_ref = 0usize;
+    let nops = 1 + r.below(14);
+    for _ in 0..nops {
+        match r.below(10) {
+            0..=4 => {
+                let k = r.below(5) as usize;
+                let ids: Vec<u64> = (0..k).map(|_| { next += 1; next - 1 }).collect();
+                let items: Vec<Arc<dyn SkimItem>> = ids.iter().map(|i| Arc::new(i.to_string()) as Arc<dyn SkimItem>).collect();
+                let n = pool.append(items);
+                all.extend(ids.iter());
+                ops.push(format!("(PAppend {})", coq::ns(ids)));
+                seen.push(vec![pool.len() as u64, pool.num_taken() as u64, pool.reserved().len() as u64]);
+                if n != pool.len() { bad = Some(format!("append returned {} but len() = {}", n, pool.len())); }
+            }
+            5..=7 => {
+                let (slice, start): (Vec<u64>, usize) = {
+                    let before = pool.num_taken();
+                    let g = pool.take();
+                    (g.iter().map(|it| it.text().parse::<u64>().unwrap()).collect(), before)
+                };
+                ops.push("PTake".to_string());
+                let mut v = vec![pool.len() as u64, pool.num_taken() as u64, pool.reserved().len() as u64];
+                v.extend(slice.iter());
+                seen.push(v);
+                // oracle: exactly the not-yet-taken items after the header lines, in order, at positions start..
+                let body: Vec<u64> = all.iter().skip(nres).cloned().collect();
+                let want: Vec<u64> = body.iter().skip(taken_ref).cloned().collect();
+                if slice != want || start != taken_ref { bad = Some(format!("take handed out {:?} from {}, expected {:?} from {}", slice, start, want, taken_ref)); }
+                taken_ref = body.len();
+            }
+            8 => {
+                pool.reset();
+                ops.push("PReset".to_string());
+                seen.push(vec![pool.len() as u64, pool.num_taken() as u64, pool.reserved().len() as u64]);
+                taken_ref = 0;
+            }
+            _ => {
+                pool.clear();
+                ops.push("PClear".to_string());
+                seen.push(vec![pool.len() as u64, pool.num_taken() as u64, pool.reserved().len() as u64]);
+                all.clear();
+                taken_ref = 0;
+            }
+        }
+        // header lines: the first nres items since the last clear, never in the pool
+        let hdr: Vec<u64> = pool.reserved().iter().map(|it| it.text().parse::<u64>().unwrap()).collect();
+        let want_hdr: Vec<u64> = all.iter().take(nres).cloned().collect();
+        if hdr != want_hdr && bad.is_none() { bad = Some(format!("reserved header items {:?}, expected {:?}", hdr, want_hdr)); }
+        if pool.num_not_taken() != pool.len() - pool.num_taken() && bad.is_none() { bad = Some("num_not_taken inconsistent".to_string()); }
+    }
+    let term = format!("(KPool {} {} {})", nres, coq::list(ops.iter().cloned()), coq::list(seen.iter().map(|v| coq::ns(v.iter().cloned()))));
+    (term, bad, format!("nres={} ops={:?}", nres, ops))
+}
+
+/// SpinLock: K threads increment a non-atomic counter J times each under the lock
+fn spin_case(r: &mut Rng) -> Option<String> {
+    let k = 2 + r.below(7) as usize;
+    let j = 200 + r.below(2000) as usize;
+    let m = Arc::new(V::SpinLock::new((0u64, 0u64)));
+    let mut hs = Vec::new();
+    for _ in 0..k {
+        let m2 = m.clone();
+        hs.push(std::thread::spawn(move || {
+            let mut torn = 0u64;
+            for _ in 0..j {
+                let mut g = m2.lock();
+                // two fields kept equal by every holder: a second holder inside would see them differ
+                if g.0 != g.1 { torn += 1; }
+                g.0 += 1;
+                std::hint::spin_loop();
+                g.1 += 1;
+            }
+            torn
+        }));
+    }
+    let torn: u64 = hs.into_iter().map(|h| h.join().unwrap()).sum();
+    let g = m.lock();
+    if torn != 0 || g.0 != (k * j) as u64 || g.1 != g.0 {
+        Some(format!("{} threads x {} increments under SpinLock: counter = ({}, {}), torn reads = {}", k, j, g.0, g.1, torn))
+    } else { None }
+}
+
+// ------------------------------------------------------------------------------------------
+fn esc(s: &str) -> String { s.replace('\\', "\\\\").replace('\t', "\\t").replace('\n', "\\n") }
+fn unesc(s: &str) -> String {
+    let mut out = String::new();
+    let mut it = s.chars();
+    while let Some(c) = it.next() {
+        if c == '\\' { match it.next() { Some('t') => out.push('\t'), Some('n') => out.push('\n'), Some(x) => out.push(x), None => {} } } else { out.push(c); }
+    }
+    out
+}
+
+/// one case: lines `id \t kind \t payload` (kind: case | fail | dist | distinct)
+fn run_case(seed: u64, id: u64, focus: &str, spec: Option<&String>, out: &mut Vec<String>) {
+    let mut r = Rng::for_case(seed, id);
+    let kind = if spec.is_some() { 0 } else { r.below(10) };
+    if kind == 0 && spec.is_none() && focus == "C15" || (kind == 1 && spec.is_none()) {
+        // pool component case
+        let (term, bad, input) = pool_case(&mut r);
+        out.push(format!("{}\tcase\t{}", id, esc(&term)));
+        out.push(format!("{}\tdist\tkind=pool", id));
+        out.push(format!("{}\tdistinct\t{}", id, esc(&input)));
+        if let Some(b) = bad { out.push(format!("{}\tfail\t{}\t{}", id, esc(&b), esc(&input))); }
+        if focus == "C15" && id % 8 == 0 {
+            if let Some(b) = spin_case(&mut r) { out.push(format!("{}\tfail\t{}\tspinlock stress", id, esc(&b))); }
+            out.push(format!("{}\tdist\tkind=spinlock-stress", id));
+        }
+        return;
+    }
+    let s = match spec { Some(sp) => parse_spec(sp), None => gen(&mut r, focus) };
+    let input = spec_of(&s);
+    let o = run(&s);
+    out.push(format!("{}\tdist\tkind=session", id));
+    out.push(format!("{}\tdist\truns={}", id, 1 + s.timeline.iter().filter(|x| matches!(x.1, Act::Cmd)).count()));
+    out.push(format!("{}\tdist\tedits={}", id, s.timeline.iter().filter(|x| matches!(x.1, Act::Add(_) | Act::Back | Act::Rotate)).count().min(4)));
+    out.push(format!("{}\tdist\tharvests={}", id, o.trace.iter().filter(|e| e.1 == "hb.harvest").count().min(6)));
+    out.push(format!("{}\tdist\tdelays={}", id, s.delays.len()));
+    if s.header_lines > 0 { out.push(format!("{}\tdist\theader-lines", id)); }
+    if s.select1 || s.exit0 { out.push(format!("{}\tdist\t{}", id, if o.auto { if o.is_abort { "decision=abort" } else { "decision=accept" } } else { "decision=interactive" })); }
+    out.push(format!("{}\tdistinct\t{}", id, esc(&input)));
+    let exp = expected(&s, o.run_start, o.fed, &o.final_query, o.regex);
+    let mut bad: Option<String> = None;
+    if s.select1 || s.exit0 {
+        let n = exp.len();
+        if s.select1 && n == 1 {
+            if !(o.auto && !o.is_abort) { bad = Some(format!("--select-1 with exactly one match {:?}: the session did not accept on its own (auto={} abort={})", exp, o.auto, o.is_abort)); }
+            else if o.output != exp { bad = Some(format!("--select-1 accepted {:?}, the one matching item is {:?}", o.output, exp)); }
+        } else if s.exit0 && n == 0 {
+            if !(o.auto && o.is_abort) { bad = Some(format!("--exit-0 with no match: the session did not end on its own (auto={} abort={})", o.auto, o.is_abort)); }
+        } else if o.auto {
+            bad = Some(format!("{} item(s) match {:?} but the session ended on its own ({}): decided on a partial result", n, o.final_query, if o.is_abort { "exit-0" } else { "select-1" }));
+        }
+    }
+    if bad.is_none() && !o.auto {
+        if o.stalled { bad = Some("no quiescent state within 6 s of the last input (heartbeats stopped or never settle)".to_string()); }
+        else {
+            let stale_ok = s.no_clear_if_empty && exp.is_empty() && o.run_start > 0;
+            if o.output != exp && !stale_ok {
+                bad = Some(format!("at quiescence the list is {:?}, the matching items of the source are {:?} (query {:?}, regex {})", o.output, exp, o.final_query, o.regex));
+            }
+        }
+    }
+    if let Some(b) = bad { out.push(format!("{}\tfail\t{}\t{}", id, esc(&b), esc(&input))); }
+    match session_case(&s, &o) {
+        Some(t) => out.push(format!("{}\tcase\t{}", id, esc(&t))),
+        None => out.push(format!("{}\tfail\tno trace recorded\t{}", id, esc(&input))),
+    }
+}
+
 fn main() {
     let a = args();
     let focus = a.extra.get("focus").cloned().unwrap_or_else(|| "C01".to_string());
-    let mut r = Rng::for_case(a.seed, a.only.unwrap_or(0));
-    let s = match a.extra.get("spec") { Some(sp) => parse_spec(sp), None => gen(&mut r, &focus) };
-    eprintln!("{}", spec_of(&s));
-    let o = run(&s);
-    let exp = expected(&s, o.run_start, o.fed, &o.final_query, o.regex);
-    eprintln!("auto={} abort={} stalled={} q={:?} regex={} out={:?}\nexp={:?}", o.auto, o.is_abort, o.stalled, o.final_query, o.regex, o.output, exp);
-    for e in &o.trace {
-        eprintln!("  {:x} {} {} {}", e.0 % 0xfff, e.1, e.2, e.3);
+    if let Some(w) = a.extra.get("worker") {
+        // worker: ids = w mod nw
+        let w: u64 = w.parse().unwrap();
+        let nw: u64 = a.extra.get("workers").map(|x| x.parse().unwrap()).unwrap_or(16);
+        let mut lines = Vec::new();
+        let mut id = w;
+        while id < a.n {
+            run_case(a.seed, id, &focus, None, &mut lines);
+            id += nw;
+        }
+        std::fs::write(a.out.join(format!("part_{}.txt", w)), lines.join("\n")).expect("write part");
+        return;
     }
+    std::fs::create_dir_all(&a.out).expect("mkdir");
+    let mut lines: Vec<String> = Vec::new();
+    if let Some(i) = a.only {
+        run_case(a.seed, i, &focus, a.extra.get("spec"), &mut lines);
+    } else if a.extra.get("spec").is_some() {
+        run_case(a.seed, 0, &focus, a.extra.get("spec"), &mut lines);
+    } else {
+        let nw: u64 = a.extra.get("workers").map(|x| x.parse().unwrap()).unwrap_or(16);
+        let exe = std::env::current_exe().unwrap();
+        let mut ch = Vec::new();
+        for w in 0..nw {
+            ch.push(std::process::Command::new(&exe)
+                .args(["--seed", &a.seed.to_string(), "--n", &a.n.to_string(), "--out", a.out.to_str().unwrap(), "--focus", &focus, "--worker", &w.to_string(), "--workers", &nw.to_string()])
+                .spawn().expect("spawn worker"));
+        }
+        for mut c in ch { let _ = c.wait(); }
+        for w in 0..nw {
+            if let Ok(t) = std::fs::read_to_string(a.out.join(format!("part_{}.txt", w))) { lines.extend(t.lines().map(|x| x.to_string())); }
+            let _ = std::fs::remove_file(a.out.join(format!("part_{}.txt", w)));
+        }
+    }
+    // merge
+    let mut cases: Vec<(u64, String)> = Vec::new();
+    let mut fails = Vec::new();
+    let mut dist = Hist::default();
+    let mut distinct = std::collections::BTreeSet::new();
+    let mut samples = Vec::new();
+    for l in &lines {
+        let p: Vec<&str> = l.splitn(4, '\t').collect();
+        if p.len() < 3 { continue; }
+        let id: u64 = p[0].parse().unwrap_or(0);
+        match p[1] {
+            "case" => cases.push((id, unesc(p[2]))),
+            "fail" => fails.push(OracleFailure { case: id, what: unesc(p[2]), known: None, input: unesc(p.get(3).unwrap_or(&"")) }),
+            "dist" => dist.add(p[2]),
+            "distinct" => { let d = unesc(p[2]); if samples.len() < 3 { samples.push(J::s(&d)); } distinct.insert(d); }
+            _ => {}
+        }
+    }
+    cases.sort_by_key(|c| c.0);
+    let mut w = CaseWriter::new(&a.out, "Corr.Pipe", a.shard);
+    for (id, t) in cases { w.push(id, t); }
+    let total = w.total;
+    let shards = w.finish();
+    write_meta(&a.out, total, distinct.len() as u64,
+        "whole sessions of the real event loop on a held terminal: 0-40 items in 1-12-item chunks with 0-140 ms pauses, initial query, 0-4 query edits / mode rotations / spurious heartbeats / command re-runs interleaved with arrival, header lines, --no-clear-if-empty, -1/-0/--sync, 0-2 delays of 5-250 ms at the trace points of the heartbeat, restart_matcher, the matcher thread; plus ItemPool operation sequences (append/take/reset/clear with header reservation) and SpinLock contention runs; distinct by session specification",
+        samples, dist.json(), &fails, shards);
 }
